@@ -68,13 +68,19 @@ ConvertUnit(q, a, b) ==
   IF UnitOf(a).kind # UnitOf(b).kind THEN NotUnitOf(UnitOf(b).kind)      \* quantities of different kinds are never converted
   ELSE LET c == ConvertUnitQ(q, a, b) IN IF c.exact THEN UnitQ(c.q, b) ELSE UnitTerm(b, c.mul, c.oz, c.e2)
 
-\* l op r: l a quantity; r a quantity of the same kind or a plain number (u = "")
+\* l op r: l a quantity; r a quantity of the same kind or a plain number (u = "").  Where the conversion of r is not an
+\* exact rational the result is a term the driver evaluates:  add + mul * OZ^oz * 2^e2,  or  add / (mul * ..) for a ratio
+UnitArithTerm(t, add, mul, oz, e2, inv) == [k |-> "uterm", u |-> t, add |-> add, mul |-> mul, oz |-> oz, e2 |-> e2, inv |-> inv]
 UnitArith(l, op, r) ==
   IF r.u = "" THEN (CASE op \in {"*", "/"} -> UnitQ(Apply(op, l.q, r.q), l.u) [] OTHER -> Unspec)
   ELSE IF UnitOf(l.u).kind # UnitOf(r.u).kind THEN Unspec
   ELSE LET c == ConvertUnitQ(r.q, r.u, l.u) IN
-       IF ~c.exact THEN Unspec
-       ELSE CASE op \in {"+", "-"} -> UnitQ(Apply(op, l.q, c.q), l.u)
+       IF c.exact
+       THEN CASE op \in {"+", "-"} -> UnitQ(Apply(op, l.q, c.q), l.u)
               [] op = "/" -> Num(QDiv(l.q, c.q))
+              [] OTHER -> Unspec
+       ELSE CASE op = "+" -> UnitArithTerm(l.u, l.q, c.mul, c.oz, c.e2, FALSE)
+              [] op = "-" -> UnitArithTerm(l.u, l.q, QNeg(c.mul), c.oz, c.e2, FALSE)
+              [] op = "/" -> UnitArithTerm("", l.q, c.mul, c.oz, c.e2, TRUE)
               [] OTHER -> Unspec
 =============================================================================
